@@ -320,14 +320,16 @@ theorem C06_order_irrelevant (ops : List Op) (h : WellFormed ops) (hnd : NoDtor 
 /-! ### non-vacuity: concrete histories that meet the hypotheses -/
 
 /-- Box → probe, the owner swept *before* what it owns (order `[2, 1]`), plus a root and a raw object deleted by the
-    program: well-formed, running throughout, no root left — and the ledger is what the theorem says. -/
+    program: well-formed, no allocating destructor, running throughout, no root left — and the ledger is what the theorem
+    says. -/
 example :
     let ops : List Op := [.new 1 .std [] [1] [], .new 2 .std [1] [1, 2] [], .new 3 .root [] [1, 2, 3] [],
                           .new 4 .raw [] [] [], .collect [3] [2, 1], .del 3 .root, .del 4 .raw]
-    WellFormed ops ∧ (∀ op ∈ ops, op ≠ Op.stop) ∧ (ghost ops).rawLive = [] ∧ (∀ e ∈ (final ops).reg, e.root = false) ∧
+    WellFormed ops ∧ NoDtor ops ∧ (∀ op ∈ ops, op ≠ Op.stop) ∧ (ghost ops).rawLive = [] ∧
+      (∀ e ∈ (final ops).reg, e.root = false) ∧
       (final (ops ++ [Op.teardown []])).log =
         [.fin 2, .fin 1, .free 1, .free 2, .fin 3, .free 3, .fin 4, .free 4] := by
-  refine ⟨?_, by decide, by decide, by decide, by decide⟩
+  refine ⟨?_, by decide, by decide, by decide, by decide, by decide⟩
   decide
 
 /-- `C06_del_finalises_now` is not vacuous: running, owner 2 registered, it owns the registered object 1 -/
